@@ -1,6 +1,8 @@
 import Sif.Proofs.C20Mint
 import Sif.Proofs.C20Rewards
 import Sif.Generated.DispConsts
+import Sif.Generated.MintCallers
+import Sif.Generated.DispHooks
 /-
   C20 — Policy-driven issuance is bounded.  Property theorems only.
 
@@ -169,6 +171,101 @@ theorem dispconsts_readable : Sif.Generated.DispConsts.unreadable = [] := by dec
 /-- the per-block amount is positive and does not exceed the cap -/
 theorem perBlock_sane : 0 < Sif.Generated.DispConsts.mintAmountPerBlock ∧
     Sif.Generated.DispConsts.mintAmountPerBlock ≤ Sif.Generated.DispConsts.maxMintAmount := by decide
+
+/-! ### the BeginBlocker inside the application (how often it runs per block)
+
+  `module.Manager.BeginBlock` walks the list given to `SetOrderBeginBlockers`; a module listed k
+  times has its BeginBlocker executed k times per block. -/
+
+/-- number of entries of `SetOrderBeginBlockers` that name the dispensation module -/
+def dispBeginEntries : Nat :=
+  (Sif.Generated.DispHooks.beginBlockers.filter
+    (fun p => "github.com/Sifchain/sifnode/x/dispensation".toList.isPrefixOf p.toList)).length
+
+/-- a block of an application that lists the module k times: the counter moves by k·perBlock
+    (clamped at the cap) — so "the fixed per-block amount" needs k = 1 -/
+theorem app_block_counter (cfg : MintCfg) (blocked : Addr → Bool) (k : Nat) (s : MintState) (c0 : Nat)
+    (hc : s.counter = some c0) (h0 : c0 ≤ cfg.cap) :
+    ∃ s', runBlocks cfg blocked k s = .ok s' ∧ s'.counter = some (min (c0 + k * cfg.perBlock) cfg.cap) := by
+  induction k generalizing s c0 with
+  | zero => exact ⟨s, rfl, by simp [hc, Nat.min_eq_left h0]⟩
+  | succ k ih =>
+    obtain ⟨s1, h1, hc1, _⟩ := beginBlocker_ok cfg blocked s
+    have hc1' : s1.counter = some (min (c0 + cfg.perBlock) cfg.cap) := by
+      rw [hc1]; simp only [hc, Option.map, nextCounter, if_pos h0]
+    obtain ⟨s', h', hc'⟩ := ih s1 _ hc1' (Nat.min_le_right _ _)
+    refine ⟨s', ?_, ?_⟩
+    · simp only [runBlocks, h1]; exact h'
+    · rw [hc']; congr 1
+      rw [Nat.add_mul]
+      omega
+
+/-- the application lists the dispensation module exactly once among its begin blockers, and there
+    is exactly one `SetOrderBeginBlockers` call (regenerated fact; defect F22 of the pinned tree:
+    it was listed twice — `disptypes.ModuleName` and `dispensation.ModuleName` — so 2 × 225 rowan
+    were minted per block) -/
+theorem dispensation_begin_blocker_once :
+    dispBeginEntries = 1 ∧ Sif.Generated.DispHooks.beginBlockersCalls = 1 := by decide
+
+/-! ## (c) `cap_const`: who can mint, who can write the counter (facts regenerated from the source)
+
+  A new caller of `MintCoins`, `SetMintController`, `AddMintAmount` or `DistributeDepthRewards`, a
+  new KVStore write in x/dispensation, or a new reference to `MintControllerPrefix` changes the
+  generated list and fails the obligation. -/
+
+open Sif.Generated.MintCallers in
+/-- production call sites: rowan (or any coin) is minted only by the dispensation BeginBlocker,
+    clp `DistributeDepthRewards` (called only from the clp EndBlocker), ethbridge
+    `ProcessSuccessfulClaim` (consensus-approved bridge credits) and the IBC decimal-conversion
+    helper; the counter is written only through `SetMintController`, called by `AddMintAmount`
+    (called only from the BeginBlocker), `InitGenesis` and the v2 store migration. -/
+theorem cap_const_callers : prodCalls =
+    [ ("x/clp/abci.go", "EndBlocker", "DistributeDepthRewards"),
+      ("x/clp/keeper/rewards.go", "Keeper.DistributeDepthRewards", "MintCoins"),
+      ("x/dispensation/abci.go", "BeginBlocker", "AddMintAmount"),
+      ("x/dispensation/abci.go", "BeginBlocker", "MintCoins"),
+      ("x/dispensation/genesis.go", "InitGenesis", "SetMintController"),
+      ("x/dispensation/keeper/migrations.go", "Migrator.MigrateToVer2", "SetMintController"),
+      ("x/dispensation/keeper/mint_controller.go", "Keeper.AddMintAmount", "SetMintController"),
+      ("x/ethbridge/keeper/keeper.go", "Keeper.ProcessSuccessfulClaim", "MintCoins"),
+      ("x/ethbridge/keeper/keeper.go", "Keeper.ProcessSuccessfulClaim", "MintCoins"),
+      ("x/ibctransfer/helpers/conversion_helper.go", "PrepareToSendConvertedCoins", "MintCoins") ] := by decide
+
+open Sif.Generated.MintCallers in
+/-- no message handler (a method of a `msgServer`, or a function of a handler.go / msg_server.go
+    file) is among them -/
+theorem cap_const_no_handler :
+    prodCalls.all (fun c => !("msgServer.".toList.isPrefixOf c.2.1.toList) &&
+      !("msg_server.go".toList.isSuffixOf c.1.toList) && !("handler.go".toList.isSuffixOf c.1.toList)) = true := by
+  decide
+
+open Sif.Generated.MintCallers in
+/-- the only test-support callers (never linked into the node binary's message path) -/
+theorem cap_const_testsupport : testSupportCalls =
+    [ ("app/test_helpers.go", "AddCoinsToAccount", "MintCoins"),
+      ("app/test_helpers.go", "addTestAddrs", "MintCoins"),
+      ("x/clp/test/test_common.go", "GeneratePoolsFromFile", "MintCoins"),
+      ("x/ethbridge/test/test_helpers.go", "CreateTestKeepers", "MintCoins") ] := by decide
+
+open Sif.Generated.MintCallers in
+/-- every KVStore write of x/dispensation: key 0x03 is written by `SetMintController` only; all
+    other writes go through the key functions whose prefixes are 0x00/0x11/0x12/0x01/0x02
+    (`Sif.Props.C11.prefixes_expected`) -/
+theorem cap_const_store_writes : dispStoreWrites =
+    [ ("x/dispensation/keeper/distribution.go", "Keeper.SetDistribution", "Set", "types.GetDistributionsKey(ar.DistributionName, ar.DistributionType, ar.Runner)"),
+      ("x/dispensation/keeper/distributionRecords.go", "Keeper.DeleteDistributionRecord", "Delete", "types.GetDistributionRecordKey(status, distributionName, recipientAddress, distributionType)"),
+      ("x/dispensation/keeper/distributionRecords.go", "Keeper.SetDistributionRecord", "Set", "types.GetDistributionRecordKey(dr.DistributionStatus, dr.DistributionName, dr.RecipientAddress, dr.DistributionType)"),
+      ("x/dispensation/keeper/mint_controller.go", "Keeper.SetMintController", "Set", "types.MintControllerPrefix"),
+      ("x/dispensation/keeper/userclaim.go", "Keeper.DeleteClaim", "Delete", "types.GetUserClaimKey(recipient, userClaimType)"),
+      ("x/dispensation/keeper/userclaim.go", "Keeper.SetClaim", "Set", "types.GetUserClaimKey(ar.UserAddress, ar.UserClaimType)") ] := by decide
+
+open Sif.Generated.MintCallers in
+/-- `MintControllerPrefix` is referenced only by its definition and by Get/SetMintController -/
+theorem cap_const_prefix_refs : mintControllerPrefixRefs =
+    [ ("x/dispensation/keeper/mint_controller.go", "Keeper.GetMintController", "MintControllerPrefix"),
+      ("x/dispensation/keeper/mint_controller.go", "Keeper.GetMintController", "MintControllerPrefix"),
+      ("x/dispensation/keeper/mint_controller.go", "Keeper.SetMintController", "MintControllerPrefix"),
+      ("x/dispensation/types/keys.go", "(package level)", "MintControllerPrefix") ] := by decide
 
 /-! ### non-vacuity -/
 
